@@ -71,6 +71,12 @@ var defaultStubbed = []string{
 // (pure accessors).
 var defaultAllow = []string{
 	"(*flag.stringValue).String", "(*go/ast.Ident).String", "(io/fs.FileMode).IsDir",
+	"sync/atomic.b32",
+	"(*sync/atomic.Bool).Load", "(*sync/atomic.Bool).Store", "(*sync/atomic.Bool).Swap", "(*sync/atomic.Bool).CompareAndSwap",
+	"(*sync/atomic.Int32).Load", "(*sync/atomic.Int32).Store", "(*sync/atomic.Int32).Add", "(*sync/atomic.Int32).Swap", "(*sync/atomic.Int32).CompareAndSwap",
+	"(*sync/atomic.Int64).Load", "(*sync/atomic.Int64).Store", "(*sync/atomic.Int64).Add", "(*sync/atomic.Int64).Swap", "(*sync/atomic.Int64).CompareAndSwap",
+	"(*sync/atomic.Uint32).Load", "(*sync/atomic.Uint32).Store", "(*sync/atomic.Uint32).Add", "(*sync/atomic.Uint32).Swap", "(*sync/atomic.Uint32).CompareAndSwap",
+	"(*sync/atomic.Uint64).Load", "(*sync/atomic.Uint64).Store", "(*sync/atomic.Uint64).Add", "(*sync/atomic.Uint64).Swap", "(*sync/atomic.Uint64).CompareAndSwap",
 }
 
 // NewEngine prepares an exploration of the named harness function.
